@@ -8,8 +8,27 @@ ids = [json.loads(l)["id"] for l in open(os.path.join(HERE, "properties.jsonl"))
 na_path = os.path.join(HERE, "tools", "not_applicable.json")
 na = json.load(open(na_path)) if os.path.exists(na_path) else {}
 checks, napp = [], []
+
+
+def green(pid):
+    """a property is claimed only if its last evidence file (written by ./check on /repo) shows a clean run"""
+    ev = os.path.join(HERE, "evidence", pid + ".json")
+    if not os.path.exists(ev):
+        return False, "check exists but has not completed a clean run on the current tree yet"
+    e = json.load(open(ev))
+    bad = [q for q in e["coverage"].get("queries", []) if q.get("status") in ("violation", "unknown", "error", "mismatch", "vacuous")
+           and q.get("required", True)]
+    if e.get("violations") or bad:
+        return False, "check not yet clean on the current tree (under construction)"
+    return True, ""
+
+
 for pid in ids:
     path = os.path.join(HERE, "lunaverif", "props", pid.lower() + ".py")
+    ok, why = green(pid) if os.path.exists(path) else (False, "")
+    if os.path.exists(path) and pid not in na and not ok:
+        napp.append(dict(property_id=pid, reason=why))
+        continue
     if os.path.exists(path) and pid not in na:
         mod = importlib.import_module(f"lunaverif.props.{pid.lower()}")
         checks.append(dict(
